@@ -306,7 +306,7 @@ func analyse(p *pkgInfo, f *ast.File, name string) {
 	}()
 	for _, is := range f.Imports {
 		ip := strings.Trim(is.Path.Value, "\"")
-		if ip == "time" || ip == "context" || ip == "os/signal" {
+		if ip == "context" || ip == "os/signal" {
 			feeds = ip
 		}
 		if noteImports[ip] {
@@ -395,15 +395,15 @@ func analyse(p *pkgInfo, f *ast.File, name string) {
 				}
 				switch full {
 				case "(*sync.Mutex).Lock", "(*sync.RWMutex).Lock", "(*sync.RWMutex).RLock", "(*sync.Once).Do", "(*sync.WaitGroup).Wait",
-					"(*sync.WaitGroup).Add", "(*sync.WaitGroup).Done":
+					"(*sync.WaitGroup).Add", "(*sync.WaitGroup).Done", "time.Sleep", "time.After", "time.Tick", "time.NewTimer", "time.NewTicker",
+					"time.AfterFunc", "(*time.Timer).Stop", "(*time.Timer).Reset", "(*time.Ticker).Stop", "(*time.Ticker).Reset":
 					if !called[x] {
 						rep.Unmodelled = append(rep.Unmodelled, Note{"method value of " + full + " (not a direct call)", pos(x.Pos())})
 					}
 				}
 				switch {
 				case strings.HasPrefix(full, "(*sync.Cond)"), full == "sync.Cond", full == "sync.NewCond",
-					full == "time.Sleep", full == "time.After", full == "time.AfterFunc", full == "time.NewTimer",
-					full == "time.NewTicker", full == "time.Tick", full == "runtime.SetFinalizer",
+					full == "runtime.SetFinalizer",
 					full == "(sync.Locker).Lock", strings.HasPrefix(full, "(*golang.org/x/sync"):
 					rep.Unmodelled = append(rep.Unmodelled, Note{full, pos(x.Pos())})
 				}
@@ -800,9 +800,25 @@ func rewriteCall(p *pkgInfo, c *ast.CallExpr, off func(token.Pos) int, src []byt
 	obj, ok := p.info.Uses[sel.Sel].(*types.Func)
 	if ok && obj.Pkg() != nil && obj.Pkg().Path() == "time" {
 		switch obj.FullName() {
-		case "time.Now", "time.Since", "time.Until":
-			// the library reads the simulated clock
+		case "time.Now", "time.Since", "time.Until", "time.Sleep", "time.After", "time.Tick", "time.NewTimer", "time.NewTicker", "time.AfterFunc":
+			// the library reads the simulated clock / arms simulated timers
 			add(off(sel.Pos()), off(sel.End())-off(sel.Pos()), "zzsim."+sel.Sel.Name)
+			rep.Rewrites[obj.FullName()]++
+			*usedSim = true
+			*rewroteTime = true
+		case "(*time.Timer).Stop", "(*time.Timer).Reset", "(*time.Ticker).Stop", "(*time.Ticker).Reset":
+			name := map[string]string{"(*time.Timer).Stop": "TimerStop", "(*time.Timer).Reset": "TimerReset", "(*time.Ticker).Stop": "TickerStop", "(*time.Ticker).Reset": "TickerReset"}[obj.FullName()]
+			x := string(src[off(sel.X.Pos()):off(sel.X.End())])
+			if tv, ok := p.info.Types[sel.X]; ok {
+				if _, isPtr := tv.Type.Underlying().(*types.Pointer); !isPtr {
+					x = "&(" + x + ")"
+				}
+			}
+			sep := ", "
+			if len(c.Args) == 0 {
+				sep = ""
+			}
+			add(off(c.Fun.Pos()), off(c.Lparen)+1-off(c.Fun.Pos()), "zzsim."+name+"("+x+sep)
 			rep.Rewrites[obj.FullName()]++
 			*usedSim = true
 			*rewroteTime = true
